@@ -123,11 +123,25 @@ def gen_config(rng, tier, opts):
     }
     if rng.random() < 0.2:
         cfg["duplicate_case_names"] = True
+    if sum(1 for c in cases if c["estimator"] == "lossmin") >= 2 and rng.random() < 0.5:
+        cfg["share_options"] = True
     if rng.random() < 0.12:
         cfg["parent_atol"] = rng.choice([1e-6, 1e-6, 1e-9, 1e-4])  # the caller changed quara's global tolerance before the run
+    normalise_shared_options(cfg)
     if not cfg["is_computation_time_required"]:
         # the MSE-of-estimators check reads computation times; without them only the other checks are requested
         cfg["exec_sim_check"] = {"consistency": rng.random() < 0.5, "mse_of_estimators": False, "mse_of_empi_dists": rng.random() < 0.5, "physicality_violation": True}
+    return cfg
+
+
+def normalise_shared_options(cfg):
+    """with share_options every loss-minimisation case is handed the first one's option object: the configuration says so
+    explicitly (the oracles read the configuration, not the objects)."""
+    if cfg.get("share_options"):
+        first = next((c for c in cfg["cases"] if c["estimator"] == "lossmin"), None)
+        for c in cfg["cases"]:
+            if c["estimator"] == "lossmin" and c is not first:
+                c["algo"] = dict(first["algo"])
     return cfg
 
 
@@ -191,8 +205,14 @@ def build_test_setting(cfg):
     true_ns = _noise_setting((ut, name), cfg["noise"])
     tester_ns = [_noise_setting(t, cfg["noise"], tester=True) for t in testers_for(ut)]
     estimators, losses, algos = [], [], []
+    shared_algo_option = None
     for c in cfg["cases"]:
         e, l, a = build_case(c)
+        if cfg.get("share_options") and c["estimator"] == "lossmin":
+            # several cases may be given one and the same option object (a legal way to write a test setting)
+            if shared_algo_option is None:
+                shared_algo_option = a[1]
+            a = (a[0], shared_algo_option)
         estimators.append(e)
         losses.append(l)
         algos.append(a)
